@@ -41,6 +41,35 @@ func genC02(kind string) func(r *core.Rng) any {
 				curvedContour(r, p)
 			}
 			curved = true
+		case "nested":
+			// 3-5 contours nested in each other (islands in holes in ...), each with its own orientation,
+			// in one or two groups; a quarter of the cases on the integer grid (squares)
+			var cs [][]Pt
+			grid := r.Chance(0.25)
+			for g, ng := 0, r.IntRange(1, 2); g < ng; g++ {
+				cx, cy := float64(g)*150+r.Range(-20, 20), r.Range(-20, 20)
+				rad := r.Range(30, 60)
+				if grid {
+					cx, cy, rad = math.Round(cx), math.Round(cy), 48
+				}
+				for k, nk := 0, r.IntRange(3, 5); k < nk; k++ {
+					if grid {
+						sq := []Pt{{cx - rad, cy - rad}, {cx + rad, cy - rad}, {cx + rad, cy + rad}, {cx - rad, cy + rad}}
+						if r.Bool() {
+							sq[1], sq[3] = sq[3], sq[1]
+						}
+						cs = append(cs, sq)
+						rad = math.Floor(rad * r.Range(0.4, 0.8))
+						if rad < 1 {
+							break
+						}
+					} else {
+						cs = append(cs, starPoly(r, cx, cy, rad*0.6, rad, r.IntRange(4, 9), r.Bool()))
+						rad *= r.Range(0.3, 0.55)
+					}
+				}
+			}
+			p = contoursPath(cs)
 		case "selfx":
 			cs := [][]Pt{selfCrossing(r, false)}
 			if r.Chance(0.4) {
@@ -355,6 +384,7 @@ func init() {
 		Strata: []core.Stratum{
 			{Name: "simple", Quick: 3000, Thorough: 120000, Gen: genC02("simple")},
 			{Name: "grid", Quick: 3000, Thorough: 120000, Gen: genC02("grid")},
+			{Name: "nested", Quick: 1500, Thorough: 40000, Gen: genC02("nested"), Note: "3-5 levels of nesting with independent orientations"},
 			{Name: "curved", Quick: 500, Thorough: 20000, Gen: genC02("curved")},
 			{Name: "selfx", Quick: 1500, Thorough: 60000, Gen: genC02("selfx")},
 			{Name: "selfx-grid", Quick: 1000, Thorough: 40000, Gen: genC02("selfx-grid"), WitnessOnly: true, Note: "self-crossing integer-grid polygons: 3e-5 panics / wrong regions / non-idempotent (F-C02-selfx-grid)"},
